@@ -59,7 +59,7 @@ func TestC02(t *testing.T) {
 				_ = s
 			},
 			"close": func(t *rapid.T) { w.Close(w.drawOpenSnap(t)) },
-			"": func(t *rapid.T) {},
+			"":      func(t *rapid.T) {},
 		}
 		acts["put2"] = acts["put"]
 		acts["put3"] = acts["put"]
